@@ -101,6 +101,15 @@ def scenarios(r, n, ctx):
     return out, extra
 
 
+def last_attempt(scn, ev, part):
+    """The ordering rules are those of ONE save: when a scenario enters one saver object twice they are applied to
+    the system calls of the last attempt (from its opening of the part file on)."""
+    if not scn.get('reuse'):
+        return ev
+    opens = [i for i, e in enumerate(ev) if e['sys'] in ('open', 'openat') and os.path.basename(part) in e['args']]
+    return ev[opens[-1]:] if opens else ev
+
+
 def sigkey(msg):
     import re
     return re.match(r"[A-Za-z ,/|_-]*", msg).group(0).strip().replace(' ', '-')[:60]
@@ -363,7 +372,7 @@ def check_scenario_A(scn, stats, viol):
             viol('normal-exit:strace', 'listing %r' % after['listing'], {'layer': 'A', 'scn': scn, 'inject': None})
         stats.monitor_evals += 1
         stats.count('strace_traces_checked_by_order_oracle')
-        for msg in F.strace_order_violations(ev, dest, part):
+        for msg in F.strace_order_violations(last_attempt(scn, ev, part), dest, part):
             viol('strace-order:' + sigkey(msg), msg + ' | trace=%r'
                  % [(e['sys'], e['args'][:60]) for e in ev], {'layer': 'A', 'scn': scn, 'inject': None})
         if len(stats.samples) < 4:
@@ -390,7 +399,7 @@ def check_scenario_A(scn, stats, viol):
                          '%s refused with %s: driver exit %s, destination holds %r...'
                          % (sysname, en, rc2, after_k['dest'] and after_k['dest']['bytes'][:30]),
                          {'layer': 'A', 'scn': scn, 'inject': inj})
-                for msg in F.strace_order_violations(ev2, dest_k, part_k):
+                for msg in F.strace_order_violations(last_attempt(scn, ev2, part_k), dest_k, part_k):
                     viol('strace-publish-refused:%s:%s' % (en, sigkey(msg)), msg + ' | trace=%r'
                          % [(e2['sys'], e2['args'][:60], e2['ret']) for e2 in ev2], {'layer': 'A', 'scn': scn, 'inject': inj})
                 shutil.rmtree(dk, ignore_errors=True)
